@@ -361,9 +361,9 @@ func dischargeAll(results []*Result, outDir string, timeoutS int, workers int) m
 				}
 				if res.Status != "unsat" {
 					t := tmo
-					if res.Status == "sat" && t > 20 {
+					if res.Status == "sat" && t > 30 {
 						// the ground-instantiated query has a model: the full query is rarely unsat
-						t = 20
+						t = 30
 					}
 					res = solveFile(file, t, nil)
 				}
